@@ -1,6 +1,7 @@
 package main
 
 import (
+	"strconv"
 	"crypto/ecdsa"
 	"crypto/sha256"
 	"crypto/tls"
@@ -158,6 +159,12 @@ func certMain(args []string) {
 				st["started"], st["served"] = started, served
 			case "delete":
 				os.Remove(cf)
+			case "dirmode": /* the operator (or a hardening script) changes the permission bits of the cache's directory between runs */
+				if _, err := os.Stat(dir); nil == err {
+					mo, _ := strconv.ParseUint(fmt.Sprint(op["mode"]), 8, 32)
+					os.Chmod(dir, os.FileMode(mo))
+					defer os.Chmod(dir, 0700)
+				}
 			case "prefix":
 				if nil != complete {
 					os.WriteFile(cf, complete[:min(num(op["n"]), len(complete))], 0600)
